@@ -3,7 +3,9 @@
 (*   [env, ev |-> "probe", regions.., term, rew_m]  or  [env, ev |-> "reset", atoms] *)
 (* of a lerax classic-control environment placed next to a threshold (terminal  *)
 (* flag and reward as computed by the real terminal / reward components on the  *)
-(* real successor), or a MuJoCo / reset case carrying atoms only.               *)
+(* real successor), or a MuJoCo / reset / parity case carrying atoms only       *)
+(* ("parity": differential comparison with the installed Gymnasium reference,  *)
+(* judged numerically by the harness, lvf/props/gym_parity.py).                *)
 EXTENDS Integers, Sequences, FiniteSets, TLC, TLCExt, Json, IOUtils
 VARIABLES tid, l, rej
 R == INSTANCE RefMDP
@@ -18,7 +20,7 @@ Clauses(ev) ==
         LeftWallStopsTheCar                   |-> R!WallRule(ev.env, ev)]
   ELSE IF ev.ev = "limits"
   THEN [StateLimitsAreGymnasiums |-> ev.xout = R!LimitX(ev.xin) /\ ev.vout = R!LimitV(ev.xin, ev.vin)]
-  ELSE [CaseIsNamed |-> ev.ev \in {"reset", "mujoco"}]
+  ELSE [CaseIsNamed |-> ev.ev \in {"reset", "mujoco", "parity"}]
 Failed(ev) == LET c == Clauses(ev) IN {n \in DOMAIN c : ~c[n]} \cup {n \in DOMAIN ev.atoms : ~ev.atoms[n]}
 TCheck == /\ l = 1
           /\ IF Failed(Ev) = {} THEN l' = 2 /\ UNCHANGED rej ELSE l' = 0 /\ rej' = <<1, Failed(Ev)>>
